@@ -43,10 +43,15 @@ func NewTypeMap(c *TermCtx) *TypeMap {
 func typeName(t types.Type) string {
 	return types.TypeString(t, func(p *types.Package) string {
 		path := p.Path()
-		if i := strings.LastIndex(path, "/"); i >= 0 {
-			path = path[i+1:]
+		path = strings.TrimPrefix(path, "github.com/VKCOM/statshouse/internal/")
+		path = strings.TrimPrefix(path, "github.com/VKCOM/statshouse/")
+		if i := strings.LastIndex(path, "/"); i >= 0 && !strings.HasPrefix(path, "internal/") {
+			// keep enough of the path to be unique: last two elements
+			if j := strings.LastIndex(path[:i], "/"); j >= 0 {
+				path = path[j+1:]
+			}
 		}
-		return path
+		return strings.ReplaceAll(path, "/", ".")
 	})
 }
 
